@@ -48,8 +48,9 @@ Proof.
   change (7378697629483821 # 73786976294838206464)%Q with thr_1em4.
   destruct (Qnum w =? 0); [reflexivity|].
   set (ph := if sn then so_add_halfpi SO (so_arg SO z) else so_arg SO z).
+  (* the text is either built by `label += ..` or collected in a list and joined: [concat] / [nth] compute on the latter *)
   destruct (Qgtb (Qabs ph) thr_1em4); destruct sn, hz, deg; try destruct (Qpos ph);
-    cbn [app]; rewrite <- ?app_assoc; cbn [app]; reflexivity.
+    cbn [app concat nth]; rewrite <- ?app_assoc; cbn [app]; rewrite ?app_nil_r; reflexivity.
 Qed.
 
 Lemma gen_empty_eq (q : quantity) (reverse : bool) : sm_get q g_EmptyDiagramSolution reverse = [].
